@@ -1578,6 +1578,7 @@ class Executor(object):
         for t in alts:
             s2 = st.fork() if (len(alts) > 1 or raises) else st
             oldst = s2.fork()
+            pre_ofields, pre_epoch = dict(s2.ofields), s2.epoch
             self.havoc_modifies(s2, c, env)
             result = self.fresh(s2, t, 'r_' + fi.name)
             post = s2.fork()
@@ -1596,6 +1597,8 @@ class Executor(object):
             s2.heap = post.heap if False else s2.heap
             ev = Event(fi.qualname, args, kwargs, result, dict(s2.ghost), getattr(node, 'lineno', 0))
             ev.key = fi.key
+            # (the values tracked opaque fields had when the callee was entered: `opaque_field_at(st, ev, ..)`)
+            ev.pre_ofields, ev.pre_epoch = pre_ofields, pre_epoch
             s2.trace.append(ev)
             if self.feasible(s2):
                 outs.append((s2, result))
